@@ -54,7 +54,7 @@ class MultiGeoLineString(MultiShapeBase, LineLikeMixin, SimpleShapeMixin):
     def centroid(self):
         # TODO: weighted by line length
         lon, lat = np.mean(
-            np.array([coord.to_float() for shape in self.geoshapes for coord in shape.vertices]),
+            np.array([coord.to_float()[:2] for shape in self.geoshapes for coord in shape.vertices]),
             axis=0
         )
         return Coordinate(lon, lat)
